@@ -62,12 +62,20 @@ theorem insertSorted_perm (less : Update → Update → Bool) (u : Update) (l : 
     · exact List.Perm.refl _
     · exact ((List.Perm.cons v ih).trans (List.Perm.swap u v vs))
 
-theorem sortBy_perm (less : Update → Update → Bool) (l : List Update) : (sortBy less l).Perm l := by
+theorem foldl_insert_perm (less : Update → Update → Bool) : ∀ (l acc : List Update),
+    (l.foldl (fun acc u => insertSorted less u acc) acc).Perm (l ++ acc) := by
+  intro l
   induction l with
-  | nil => exact List.Perm.refl _
+  | nil => intro acc; exact List.Perm.refl _
   | cons u us ih =>
-    show (insertSorted less u (sortBy less us)).Perm (u :: us)
-    exact (insertSorted_perm less u _).trans (List.Perm.cons u ih)
+    intro acc
+    simp only [List.foldl_cons, List.cons_append]
+    refine (ih _).trans ?_
+    exact (List.Perm.append_left us (insertSorted_perm less u acc)).trans List.perm_middle
+
+theorem sortBy_perm (less : Update → Update → Bool) (l : List Update) : (sortBy less l).Perm l := by
+  have := foldl_insert_perm less l []
+  simpa [sortBy] using this
 
 theorem insertSorted_sorted (less : Update → Update → Bool)
     (asymm : ∀ a b, less a b = true → less b a = false)
@@ -103,9 +111,15 @@ theorem sortBy_sorted (less : Update → Update → Bool)
     (asymm : ∀ a b, less a b = true → less b a = false)
     (trans : ∀ a b c, less a b = true → less b c = true → less a c = true)
     (l : List Update) : SortedBy less (sortBy less l) := by
+  unfold sortBy
+  suffices h : ∀ acc, SortedBy less acc → SortedBy less (l.foldl (fun acc u => insertSorted less u acc) acc) from
+    h [] List.Pairwise.nil
   induction l with
-  | nil => exact List.Pairwise.nil
-  | cons u us ih => exact insertSorted_sorted less asymm trans u _ ih
+  | nil => intro acc h; exact h
+  | cons u us ih =>
+    intro acc h
+    simp only [List.foldl_cons]
+    exact ih _ (insertSorted_sorted less asymm trans u acc h)
 
 /-- **the sorted permutation is unique** when elements that compare as equal are equal -/
 theorem sorted_perm_unique (less : Update → Update → Bool)
